@@ -55,6 +55,8 @@ type raceCase struct {
 
 // programs touching every subsystem with package-level data
 var subsystems = []string{
+	// parsing at run time, with and without syntax errors (eval, Function, RegExp): parser state shared between runtimes
+	`var r = []; var srcs = ["1+", "var (", "a b", "x = {", "/[/", "1 +* 2", "function(){", "'unterminated", "({a:1,b:2}).b", "[1,2,3].length"]; for (var i = 0; i < srcs.length; i++) { try { r.push("ok:" + eval(srcs[i])) } catch (e) { r.push(e.name + ":" + e.message) } try { r.push(typeof new Function("a", "return " + srcs[i])) } catch (e2) { r.push(e2.name) } } try { new RegExp("(") } catch (e3) { r.push(e3.name) } log(r.join("|"))`,
 	"log(" + "String(" + librarySweep + ").length, " + librarySweep + ")",
 	`var m = /(\d+)-(\d+)/.exec("tel 555-1234"); log(m[1], m[2], "a1b22c".replace(/\d+/g, function(x){ return x.length }), RegExp("^[a-c]+$","i").test("ABC"))`,
 	`log(JSON.stringify({a:[1,2,{b:null}],c:"x y",d:1e21}), JSON.parse('{"k":[1,2.5,"s",true,null]}').k.length, JSON.stringify([new Date(0)]))`,
@@ -189,6 +191,10 @@ func makeRuntime(template *otto.Otto, spec rtSpec) *otto.Otto {
 // script of one runtime: its private programs, the shared script Reuse times and the shared program once
 func execute(vm *otto.Otto, spec rtSpec, script *otto.Script, program *ast.Program, reuse int) []string {
 	var out []string
+	// the host keeps the errors of two failed parses while this and other runtimes go on parsing, and reads them
+	// only at the end: they must still describe their own source text
+	_, heldRun := vm.Run("var held = (" + strconv.Itoa(spec.Seed) + ";\n  ) oops")
+	_, heldCompile := vm.Compile("held-"+strconv.Itoa(spec.Seed)+".js", "function (" + strconv.Itoa(spec.Seed))
 	if spec.DefaultRandom {
 		// Math.random without a source of the runtime's own: whatever all runtimes of the process share behind it
 		// is used concurrently; the values themselves are not part of the result
@@ -215,6 +221,7 @@ func execute(vm *otto.Otto, spec rtSpec, script *otto.Script, program *ast.Progr
 	}
 	// call every function the history and the programs left in the global scope (closures, bound functions
 	// made before Copy() …): storage shared between a template and its copies is then used concurrently
+	out = append(out, fmt.Sprintf("held-errors:%v | %v", heldRun, heldCompile))
 	out = append(out, "exercise:"+runOn(vm, heap.Exercise))
 	out = append(out, "trace:"+runOn(vm, `__trace.join("\n")`))
 	return out
